@@ -57,6 +57,8 @@ TrProbe == /\ Is("Probe")
            /\ Flag(IF Len(E.problems) > 0 THEN {"harness-problem"} ELSE   \* a round that could not measure is no measurement
                    (IF ToSet(E.serving) # Serving(good) THEN {"serving-mismatch"} ELSE {})
                    \cup (IF ToSet(E.listening) # ListeningOf(good) THEN {"listening-mismatch"} ELSE {})
+                   \* the kernel accepted a connection on an address that should listen, but the server never handled it
+                   \cup (IF \E x \in ToSet(E.unhandled) : <<x[1], x[2]>> \in ListeningOf(good) THEN {"connection-unhandled"} ELSE {})
                    \cup (IF E.runners >= 0 /\ E.runners # (IF good = NoCfg THEN 0 ELSE 1) THEN {"leftover-runner"} ELSE {})
                    \cup {})
            /\ nprobe' = nprobe + 1
